@@ -511,21 +511,18 @@ where
             });
         }
 
-        let qual_len = self.buf_pos.pos.1 - self.buf_pos.qual + 1;
-        let seq_len = self.buf_pos.sep - self.buf_pos.seq;
-        if seq_len != qual_len {
-            // the raw lengths can differ only by the line terminators
-            // (e.g. CRLF file without terminator at the end of the last line)
-            let seq = self.buf_pos.seq(self.get_buf()).len();
-            let qual = self.buf_pos.qual(self.get_buf()).len();
-            if seq != qual {
-                self.state = State::Finished;
-                return Err(Error::UnequalLengths {
-                    seq,
-                    qual,
-                    pos: self.get_error_pos(0, true),
-                });
-            }
+        // The lengths are compared without the line terminators: the raw
+        // line lengths are no reliable substitute, since the last line of a
+        // CRLF file may end without terminator
+        let seq = self.buf_pos.seq(self.get_buf()).len();
+        let qual = self.buf_pos.qual(self.get_buf()).len();
+        if seq != qual {
+            self.state = State::Finished;
+            return Err(Error::UnequalLengths {
+                seq,
+                qual,
+                pos: self.get_error_pos(0, true),
+            });
         }
         Ok(())
     }
